@@ -22,19 +22,27 @@ def jobs(tier):
             cfg.update({"tbuf": 1, "soft": 1, "hard": 1})  # one backend event slot, reused by every statement
         cfg.update(fault)
         js.append({"scenario": "c10.ub", "cfg": cfg, "bound": bound, "deadline": deadline})
-    # (A) one thread: every history of n statements over the six kinds x every single sink fault position
+    # (A) one thread: every history of n statements over the eight kinds x every single sink fault position
     for h in range(8 ** 2):
         for f in FAULTS:
             add(2, h, f, 0, 1)
-    for h in range(8 ** 3):
-        for f in (FAULTS if not q else (FAULTS[0], FAULTS[2], FAULTS[4], FAULTS[7])):
-            add(3, h, f, 0, 0 if q else 1)
-    if not q:
+    if q:
+        # length 3 in the quick tier: kinds {ok, missing argument, formatter throws int, named, zero arguments}
+        sub = (0, 1, 3, 6, 7)
+        for a in sub:
+            for b in sub:
+                for c in sub:
+                    for f in (FAULTS[0], FAULTS[2], FAULTS[7]):
+                        add(3, a + 8 * b + 64 * c, f, 0, 0)
+    else:
+        for h in range(8 ** 3):
+            for f in FAULTS:
+                add(3, h, f, 0, 1)
         for h in range(8 ** 4):
             for f in (FAULTS[0], FAULTS[2], FAULTS[4], FAULTS[7]):
                 add(4, h, f, 0, 0)
     # (B) two threads / two loggers sharing sink 2: each kind of unformattable statement in the middle
-    for kind in range(8):
+    for kind in ((1, 3, 6, 7) if q else range(8)):
         h = kind * 8
         for f in ((FAULTS[0], FAULTS[7]) if q else FAULTS):
             add(3, h, f, 1, 1 if q else 2, 300)
